@@ -393,8 +393,6 @@ def judge_case(ctx, res):
                 ctx.bump("ops_refused_by_contract_guard")
             else:
                 ctx.bump_in("exceptions", x["type"])
-        if name == "deviate" and "ret" in ev:
-            ctx.bump_in("structural_deviations_applied", op["kind"] if ev["ret"] and not str(ev["ret"][0]).startswith("refused") else op["kind"] + " (not applicable)")
         if name == "handle_ops" and "ret" in ev:
             r = ev["ret"]
             ctx.bump("handle_ops_checked")
@@ -488,35 +486,6 @@ def run(ctx):
                {"op": "observe_all", "snapshots": False}]
         cases.append({"id": "long%d" % n, "schema": schema, "ops": ops, "_kinds": ["waveform:millions-of-entries"], "no_tz": True})
         n += 1
-    # libraries that deviate from their schema (another tool dropped indexes, renamed or removed a column, added objects, emptied a
-    # table): verify(), loading, listings and a few writes on them may refuse with any std::exception, never misbehave
-    KINDS = ["drop_index", "drop_all_indexes", "drop_view", "drop_trigger", "drop_table", "empty_table", "add_table", "add_view", "add_index",
-             "add_column", "rename_table", "rename_column", "drop_column"]
-    perdev = 26 if ctx.tier == "quick" else 400
-    for schema in ALL_SCHEMAS:
-        v2 = schema.startswith("2.")
-        for k in range(perdev):
-            kind = KINDS[k % len(KINDS)]
-            d = "@W/dev%d" % n
-            rel = "Database2/m.db" if v2 else ("m.db" if (k // len(KINDS)) % 2 == 0 else "p.db")
-            ops = [{"op": "create", "schema": schema, "dir": d},
-                   {"op": "create_track", "as": "t0", "snap": GS.gen_snapshot(ctx.rng, schema, rich=True, hostile_sentinels=False)},
-                   {"op": "create_root_crate", "name": GS.hx("A"), "as": "cA"}, {"op": "create_sub_crate", "c": "cA", "name": GS.hx("B"), "as": "cB"},
-                   {"op": "add_track", "c": "cB", "t": "t0"}]
-            held = k % 3 == 0      # the deviation appears while the handles are still open / before the library is loaded again
-            if not held:
-                ops.append({"op": "release_all"})
-            ops.append({"op": "deviate", "file": d + "/" + rel, "kind": kind, "pick": ctx.rng.randrange(0, 1000)})
-            if not held:
-                ops.append({"op": "load", "dir": d})
-            ops += [{"op": "verify"}, {"op": "observe_all", "snapshots": True},
-                    {"op": "create_track", "as": "t1", "snap": GS.gen_snapshot(ctx.rng, schema, rich=True, hostile_sentinels=False)},
-                    {"op": "create_root_crate", "name": GS.hx("C"), "as": "cC"}, {"op": "add_track", "c": "cC", "t": "t1"},
-                    {"op": "remove_crate", "c": "cA"}, {"op": "remove_track", "t": "t0"}, {"op": "verify"},
-                    {"op": "observe_all", "snapshots": True}]
-            cases.append({"id": "dev%d" % n, "schema": schema, "ops": ops, "_kinds": ["state:deviates-from-schema", "state:" + kind], "no_disk": True})
-            n += 1
-            flush()
     flush(force=True)
     ctx.assumptions += ["ASan+UBSan(float-cast-overflow, float-divide-by-zero)+_GLIBCXX_ASSERTIONS build; a single allocation above 128 MiB "
                         "fails with std::bad_alloc", "calls on removed handles other than copy/assign/destroy/id()/is_valid() are "
